@@ -77,7 +77,7 @@ def obligations(ck, t):
 
 def diagnostics(ck):
     txt = HDR + ("Eval vm_compute in (failing_tables gen).\nEval vm_compute in (failing_builder gen).\n"
-                 "Eval vm_compute in (not_refused gen).\nEval vm_compute in (failing_select gen).\nEval vm_compute in (failing_zero gen).\nEval vm_compute in (failing_precision gen).\nEval vm_compute in (groups_ok gen, none_ok gen, units_ok gen, kinds_covered gen).\n")
+                 "Eval vm_compute in (not_refused gen).\nEval vm_compute in (failing_select gen).\nEval vm_compute in (failing_zero gen).\nEval vm_compute in (failing_precision gen).\nEval vm_compute in (failing_strings gen).\nEval vm_compute in (groups_ok gen, none_ok gen, units_ok gen, kinds_covered gen).\n")
     ok, res, out = ck.coq_eval("Diag_C05.v", txt)
     return res if ok else ["diagnostics failed: " + out[-300:]]
 
@@ -521,6 +521,134 @@ def single_field_cases():
     return out
 
 
+# ------------------------------------------------------------------------------------------------- boundary strings
+BOUNDARY = ["", " ", "0", "None", "False", "a:b", "a/b"]
+ID_BOUNDARY = ["None", "False", "_0"]          # the boundary values that are legal NmlIds
+TEMP_BOUNDARY = ["0degC", "0 degC", "-0.5degC"]
+
+
+def full_spec():
+    """base document with one construct of every kind, so that every string slot of the format exists"""
+    s = base_spec()
+    n = s["networks"][0]
+    n["temperature"] = "32degC"
+    n["type"] = "networkWithTemperature"
+    n["projections"].append({"id": "pr", "pre": "pA", "post": "pB", "synapse": "syn1", "conns": [
+        {"v": "C", "id": 0, "pre": "../pA[1]", "post": "../pB/2/iaf"}]})
+    n["electrical"].append({"id": "ep", "pre": "pB", "post": "pB", "conns": [
+        {"v": "EI", "id": 0, "pre": "../pB/0/iaf", "post": "../pB/1/iaf", "synapse": "gj1"}]})
+    n["continuous"].append({"id": "cp", "pre": "pB", "post": "pB", "conns": [
+        {"v": "KI", "id": 0, "pre": "../pB/0/iaf", "post": "../pB/1/iaf", "pre_component": "silent1", "post_component": "gs1"}]})
+    n["input_lists"].append({"id": "il", "component": "pg", "population": "pA", "inputs": [{"v": "I", "id": 0, "target": "../pA[1]"}]})
+    return s
+
+
+def rename_component(s, old, new):
+    for c in s["components"]:
+        if c["args"].get("id") == old:
+            c["args"]["id"] = new
+
+
+def rename_population(n, old, new):
+    for p in n["populations"]:
+        if p["id"] == old:
+            p["id"] = new
+    for k in ("projections", "electrical", "continuous"):
+        for pr in n[k]:
+            for e in ("pre", "post"):
+                if pr[e] == old:
+                    pr[e] = new
+            for c in pr["conns"]:
+                for e in ("pre", "post"):
+                    c[e] = c[e].replace("../%s[" % old, "../%s[" % new).replace("../%s/" % old, "../%s/" % new)
+    for il in n["input_lists"]:
+        if il["population"] == old:
+            il["population"] = new
+        for c in il["inputs"]:
+            c["target"] = c["target"].replace("../%s[" % old, "../%s[" % new).replace("../%s/" % old, "../%s/" % new)
+
+
+def boundary_string_cases():
+    """deterministic, every run: every string slot the format stores takes every boundary value that is legal for it, one
+    slot and one value per document -> (label, spec)"""
+    out = []
+
+    def doc(slot, v):
+        s = full_spec()
+        out.append(("%s=%r" % (slot, v), s))
+        return s, s["networks"][0]
+    for v in BOUNDARY:
+        s, n = doc("document.notes", v)
+        s["notes"] = v
+        s, n = doc("network.notes", v)
+        n["notes"] = v
+        s, n = doc("population.property.value", v)
+        n["populations"][1]["properties"] = [["flag", v], ["other", "x"]]
+        s, n = doc("population.property.tag", v)
+        n["populations"][1]["properties"] = [[v, "val"], ["other", "x"]]
+        s, n = doc("document.property.value", v)
+        s["properties"] = [["flag", v], ["other", "x"]]
+        if v.strip():
+            s, n = doc("component.notes", v)      # a top-level component travelling in the embedded XML
+            s["components"][0]["args"]["notes"] = v
+    for v in TEMP_BOUNDARY:
+        s, n = doc("network.temperature", v)
+        n["temperature"] = v
+    for v in ID_BOUNDARY:
+        s, n = doc("document.id", v)
+        s["id"] = v
+        s, n = doc("network.id", v)
+        n["id"] = v
+        for old in ("pA", "pB"):
+            s, n = doc("population.id(%s)" % old, v)
+            rename_population(n, old, v)
+        s, n = doc("population.component", v)
+        rename_component(s, "iaf", v)
+        for p in n["populations"]:
+            p["component"] = v
+        for c in n["projections"][0]["conns"] + n["electrical"][0]["conns"] + n["continuous"][0]["conns"] + n["input_lists"][0]["inputs"]:
+            for e in ("pre", "post", "target"):
+                if e in c:
+                    c[e] = c[e].replace("/iaf", "/" + v)
+        s, n = doc("projection.id", v)
+        n["projections"][0]["id"] = v
+        s, n = doc("projection.synapse", v)
+        rename_component(s, "syn1", v)
+        n["projections"][0]["synapse"] = v
+        s, n = doc("electricalProjection.id", v)
+        n["electrical"][0]["id"] = v
+        s, n = doc("electricalProjection.synapse", v)
+        rename_component(s, "gj1", v)
+        n["electrical"][0]["conns"][0]["synapse"] = v
+        s, n = doc("continuousProjection.id", v)
+        n["continuous"][0]["id"] = v
+        s, n = doc("continuousProjection.preComponent", v)
+        rename_component(s, "silent1", v)
+        n["continuous"][0]["conns"][0]["pre_component"] = v
+        s, n = doc("continuousProjection.postComponent", v)
+        rename_component(s, "gs1", v)
+        n["continuous"][0]["conns"][0]["post_component"] = v
+        s, n = doc("inputList.id", v)
+        n["input_lists"][0]["id"] = v
+        s, n = doc("inputList.component", v)
+        rename_component(s, "pg", v)
+        n["input_lists"][0]["component"] = v
+    return out
+
+
+def keys_of(dif, verdict, stage, error, reason=""):
+    """one structural key per difference (a known finding must not hide another failure of the same document)"""
+    if not dif or (verdict.get("refused") and dif[0][1] == "round trip") or dif[0][2] == "accepted silently":
+        return [(key_of(dif, verdict, stage, error, reason), dif)]
+    seen, out = set(), []
+    for d in dif:
+        k = key_of([d], verdict, stage, error, reason)
+        if k not in seen:
+            seen.add(k)
+            out.append((k, [d]))
+    return out
+
+
 ROWF = {"proj": ["pre_cell", "post_cell", "pre_seg", "post_seg", "pre_fract", "post_fract", "weight", "delay"],
         "elec": ["id", "pre_cell", "post_cell", "pre_seg", "post_seg", "pre_fract", "post_fract", "weight"],
         "cont": ["id", "pre_cell", "post_cell", "pre_seg", "post_seg", "pre_fract", "post_fract", "weight"],
@@ -540,6 +668,13 @@ def key_of(dif, verdict, stage, error, reason=""):
         return "C05:continuous.pre-component-not-in-document"
     if path == "/annotation":
         return "C05:document.annotation"
+    if path.startswith("/top/silent_synapses") and "silentSyn_" in json.dumps(dif[0][2]):
+        return "C05:continuous.pre-component-not-in-document"
+    if dif and dif[0][1] == "" and dif[0][2] is None:
+        if path == "/notes":
+            return "C05:notes-empty-read-as-absent"
+        if re.match(r"/networks/[^/]+/notes$", path):
+            return "C05:network.notes-empty-read-as-absent"
     m = re.match(r"/networks/[^/]+/(proj|elec|cont|il)/[^/]+/rows(?:\[(\d+)\]\[(\d+)\])?(#len)?", path)
     if m:
         if m.group(4):
@@ -728,6 +863,16 @@ def correspondence(ck, t, n):
 
 
 # ------------------------------------------------------------------------------------------------- run
+def report_all(ck, what, spec, r, mode="plain", expect="same", reason="", prefix=""):
+    """one witness per structural class among the differences of this round trip"""
+    v = r["verdict"]
+    for k, d in keys_of(v.get("diff", []), v, r["stage"], r["error"], reason):
+        if prefix:
+            k = k.replace("C05:", prefix)
+        r2 = dict(r, verdict=dict(v, diff=d))
+        report(ck, k, "%s: %s" % (what, k), spec, r2, mode=mode, expect=expect)
+
+
 def report(ck, key, what, spec, r, mode="plain", broken=None, expect="same"):
     v = r["verdict"]
     ck.witness(key, what, input={"spec": spec, "mode": mode, "expect": expect}, expected="sem(load(write d)) = sem32 d, or an exception for a construct the format cannot hold",
@@ -780,9 +925,8 @@ def run(ck):
         ck.tally("stored_witness")
         if not r["verdict"]["ok"]:
             # the structural class is computed from the failure itself (a stored witness may fail for a new reason)
-            k2 = key_of(r["verdict"].get("diff", []), r["verdict"], r["stage"], r["error"],
-                        key.split("C05:not-refused:")[1] if key.startswith("C05:not-refused:") else "")
-            report(ck, k2, what + " [stored witness " + key + "]", spec, r, expect=expect)
+            report_all(ck, what + " [stored witness " + key + "]", spec, r, expect=expect,
+                       reason=key.split("C05:not-refused:")[1] if key.startswith("C05:not-refused:") else "")
         if r.get("doc_untouched") is False:
             ck.witness("C05:writer-changes-the-document", "the writer left the document changed", input={"spec": spec})
 
@@ -794,15 +938,33 @@ def run(ck):
         ck.count(1, nontrivial_key="single:" + label)
         ck.tally("single_field_off")
         if not r["verdict"]["ok"]:
-            k2 = key_of(r["verdict"].get("diff", []), r["verdict"], r["stage"], r["error"])
-            report(ck, k2, "only one field off its default (%s): %s" % (label, k2), spec, r)
+            report_all(ck, "only one field off its default (%s)" % label, spec, r)
+
+    # ---- every run: every string slot with every boundary value that is legal for it (plain and optimized loader)
+    bs = boundary_string_cases()
+    cases = [{"spec": s, "modes": ["plain"], "expect": "same"} for lab, s in bs]
+    nplain = len(cases)
+    for lab, s in list(bs):
+        if lab.startswith(("document.notes", "network.notes", "population.property")):
+            s2 = json.loads(json.dumps(s))      # the optimized loader refuses electrical / continuous projections by design
+            s2["networks"][0]["electrical"], s2["networks"][0]["continuous"] = [], []
+            cases.append({"spec": s2, "modes": ["optimized"], "expect": "same"})
+            bs.append((lab, s2))
+    res = ck.impl("c05_impl.py", {"cases": cases}, timeout=900)["results"]
+    for (label, spec), rr in zip(bs, res):
+        ck.count(1, nontrivial_key="string:" + label)
+        ck.tally("boundary_string")
+        for mode, r in rr.items():
+            if not r["verdict"]["ok"]:
+                report_all(ck, "boundary string in a string slot (%s, %s loader)" % (label, mode), spec, r, mode=mode,
+                           prefix="C05:optimized:" if mode == "optimized" else "")
 
     # ---- model vs code on exactly representable inputs
     if t is not None and inst_ok:
         correspondence(ck, t, ck.n(150, 1200))
 
     # ---- generated documents over the full quantifier
-    n = ck.n(260, 3000)
+    n = ck.n(220, 3000)
     specs = [gen_doc(ck.rng, i) for i in range(n)]
     nopt = ck.n(40, 300)
     B = 150
@@ -830,8 +992,7 @@ def run(ck):
             ck.count(1, nontrivial_key=json.dumps(sorted(sig)) if nrows else None,
                      sample={"doc": spec["id"], "constructs": sorted(sig)[:4], "expect": expect, "stage": r["stage"]} if k == 0 else None)
             if not r["verdict"]["ok"]:
-                key = key_of(r["verdict"].get("diff", []), r["verdict"], r["stage"], r["error"], expect.partition(":")[2])
-                report(ck, key, "generated document: " + key, spec, r, expect=expect.split(":")[0])
+                report_all(ck, "generated document", spec, r, expect=expect.split(":")[0], reason=expect.partition(":")[2])
             if r.get("doc_untouched") is False:
                 ck.witness("C05:writer-changes-the-document", "the writer left the document changed", input={"spec": spec})
 
@@ -863,8 +1024,7 @@ def run(ck):
             ck.tally("optimized_mode")
             if not r["verdict"]["ok"]:
                 nbad += 1
-                key = key_of(r["verdict"].get("diff", []), r["verdict"], r["stage"], r["error"]).replace("C05:", "C05:optimized:")
-                report(ck, key, "optimized=True load: " + key, s, r, mode="optimized")
+                report_all(ck, "optimized=True load", s, r, mode="optimized", prefix="C05:optimized:")
         ck.extra["optimized_mode_failures"] = nbad
 
 
